@@ -491,8 +491,8 @@ def check_recount(ctx, facts):
         ctx.violate("C15.4", F, "persisted-tail-block-not-searched-in-chain", b.relfile, where[1].line if where and where[1] is not None else b.line,
                     "the block named by a persisted tail position is not looked up by id in the whole recovered chain (an iteration over the chain comparing each block's id): when the "
                     "writer rotated after the position was persisted, that block is no longer where this code expects it and the consumed entries are not subtracted")
-    ctx.floor("C15.4", "position-derived indices in the recount", n_idx, 6)
-    ctx.floor("C15.4", "partial-block counts in the recount", n_part, 2)
+    ctx.floor("C15.4", "position-derived indices in the recount", n_idx, 1)
+    ctx.floor("C15.4", "partial-block counts in the recount", n_part, 1)
 
 
 def run(ctx):
